@@ -1229,6 +1229,9 @@ func runCase(t *testing.T, col *Collector, in Input) {
 	for _, c := range counts {
 		col.Count(c)
 	}
+	ptags, pnontrivial := punctTags(in)
+	tags = append(tags, ptags...)
+	nontrivial = nontrivial || pnontrivial
 	tags = append(tags, in.Tags...)
 	key, _ := json.Marshal(in)
 	id := col.NextID()
@@ -1242,7 +1245,7 @@ func runCase(t *testing.T, col *Collector, in Input) {
 
 func TestC19(t *testing.T) {
 	col := NewCollector("C19", "Check.C19",
-		"configuration trees over 1-3 spines of depth 1-4 with the five hierarchical settings present / absent / zero / empty / malformed at every level, installed through one viper layer, and 4-8 calls of the real util functions per tree; a quarter of the cases go on as a history on the same viper instance (1-3 phases of changes at levels of paths already asked for - value set, changed, removed, document re-read, logger level - each followed by repeated and sibling calls); a tenth of the cases have a concurrent round (3-8 goroutines calling at the same time, 150-400 times over (one round in eight: ten times as many; twenty times as many when one case is replayed alone), on the configuration standing still: a ladder tree with values at 2-3 levels of 3-6 spines, a random tree, or the last phase of a history; on a fresh instance or after sequential calls; the same function or all five; every distinct answer seen is printed, and the calls are made once more one at a time afterwards); non-trivial = some call has a raw value configured at two or more of its candidate levels (so the choice of level decides the result), or a later phase changes a candidate key of a path asked for before the change and asked through again after it; distinct by full input text")
+		"configuration trees over 1-3 spines of depth 1-4 with the five hierarchical settings present / absent / zero / empty / malformed at every level, installed through one viper layer, and 4-8 calls of the real util functions per tree; a quarter of the cases go on as a history on the same viper instance (1-3 phases of changes at levels of paths already asked for - value set, changed, removed, document re-read, logger level - each followed by repeated and sibling calls); a tenth of the cases have a concurrent round (3-8 goroutines calling at the same time, 150-400 times over (one round in eight: ten times as many; twenty times as many when one case is replayed alone), on the configuration standing still: a ladder tree with values at 2-3 levels of 3-6 spines, a random tree, or the last phase of a history; on a fresh instance or after sequential calls; the same function or all five; every distinct answer seen is printed, and the calls are made once more one at a time afterwards); a tenth of the cases ask paths with punctuation other than '.' inside a component (client addresses host:port and scheme://host:port as clients.go passes them, names with '-' '_') on a tree that also holds values at 1-3 keys formed by cutting the path string at such a character (keys of other paths, never levels of this one); non-trivial = some call has a raw value configured at two or more of its candidate levels (so the choice of level decides the result), or such a near-miss key is configured for a call, or a later phase changes a candidate key of a path asked for before the change and asked through again after it; distinct by full input text")
 	n := EnvInt("VERIF_N", 1500)
 	if runtime.GOMAXPROCS(0) < 4 { // the concurrent rounds want real parallelism
 		runtime.GOMAXPROCS(4)
@@ -1272,6 +1275,10 @@ func TestC19(t *testing.T) {
 		} else if k < 11 {
 			in := finish(g.focused())
 			in.Tags = append(in.Tags, "gen:focused")
+			ins = append(ins, in)
+		} else if k < 13 { // a tenth of the cases: punctuation other than '.' inside path components
+			in := g.punct()
+			in.Tags = append(in.Tags, "gen:punct")
 			ins = append(ins, in)
 		} else {
 			in := finish(g.random())
